@@ -199,7 +199,7 @@ fn run(run: &mut Run) {
     run.explore("roundtrip", run.tier.pick(400_000, 5_000_000), 900, &main_case);
     // the same, each case in a thread of its own (per-thread state of the code starts from scratch)
     run.explore_fresh("roundtrip", run.tier.pick(3_000, 40_000), 900, &main_case);
-    run.explore("deep-chains", run.tier.pick(6_000, 60_000), 900, &deep_case);
+    run.explore("deep-chains", run.tier.pick(6_000, 60_000), 2500, &deep_case);
 }
 fn case(sub: &str) -> Option<Box<CaseFn<'static>>> {
     match sub {
